@@ -188,7 +188,7 @@ func c02ReencodeHeader(r *run.Run) {
 		ms = append(ms, m)
 	}
 	ms = append(ms, 40000, 65535)
-	r.Explore(explore.Config{Name: "C02.reencode-header", Deadline: r.PartDeadline(0.2)},
+	r.Explore(explore.Config{Name: "C02.reencode-header", Workers: 1, Deadline: r.PartDeadline(0.2)},
 		"GSUB tables assembled byte by byte whose lists stand in every one of the 6 orders, with 1 or 100 small features and a last feature with m lookup indices, m in {1, 1000, 16000, every 8th value 32640..32768, 40000, 65535} (the feature list reaches beyond 64 KiB; orders in which a list would start beyond 64 KiB cannot be written down and are skipped): gtab.Read returns an error or a value whose Encode does not panic",
 		func(c *explore.Ctx) {
 			order := [][3]int{{0, 1, 2}, {0, 2, 1}, {1, 0, 2}, {1, 2, 0}, {2, 0, 1}, {2, 1, 0}}[c.Choose(6, "order of script list, feature list, lookup list")]
